@@ -849,5 +849,214 @@ Section Code.
           rewrite E2. exact Hat.
         * simpl length. rewrite app_length. fold Li Lb. replace (S (p + S (Li + Lb))) with (p + (Li + Lb + 2)) by lia. exact Hex.
   Qed.
+  (* ---- let ---- *)
+  Lemma P_let_par : forall bs body, Forall (fun xb => P (snd xb)) bs -> Forall P body -> P (ELet false bs body).
+  Proof.
+    intros bs body HPb HPbody c n p s Hf Hl Hat Hcov Hex. simpl in Hf, Hl.
+    apply andb_prop in Hf as [Hf Hne]. apply andb_prop in Hf as [Hf Hfbody]. apply andb_prop in Hf as [Hfb Hnn].
+    apply andb_prop in Hl as [Hlb Hlbody].
+    assert (Hbne : body <> []) by (destruct body; [discriminate|discriminate]).
+    change (GenF1.gen c n (ELet false bs body)) with ([GenF1.IAddScope] ++ gin (c_in c) n bs ++ map GenF1.IPutEnv (rev (map fst bs)) ++ gbeg (c_in c) (n + nlb bs) body ++ [GenF1.IRemoveScope]) in *.
+    change (ann c n (ELet false bs body) s) with ((0, s) :: sh 1 (clip (length (gin (c_in c) n bs)) (ann_inits ann (c_in c) n bs (scup s))) ++
+      sh (S (length (gin (c_in c) n bs))) (clip (length bs) (ann_puts (length bs) (scup s))) ++
+      sh (S (length (gin (c_in c) n bs)) + length bs) (clip (length (gbeg (c_in c) (n + nlb bs) body)) (ann_begin ann (c_in c) (n + nlb bs) body (scup s))) ++
+      [(S (length (gin (c_in c) n bs)) + length bs + length (gbeg (c_in c) (n + nlb bs) body), pushv (scup s))]) in *.
+    pose proof (gen_begin_ne body (c_in c) (n + nlb bs) Hfbody Hlbody Hne) as HB.
+    pose proof (begin_head body (c_in c) (n + nlb bs) (scup s) Hbne Hfbody Hlbody) as Hbh.
+    assert (HK : length (map GenF1.IPutEnv (rev (map fst bs))) = length bs) by (rewrite map_length, rev_length, map_length; reflexivity).
+    set (Li := length (gin (c_in c) n bs)) in *. set (K := length bs) in *. set (Lb := length (gbeg (c_in c) (n + nlb bs) body)) in *.
+    assert (HL : length ([GenF1.IAddScope] ++ gin (c_in c) n bs ++ map GenF1.IPutEnv (rev (map fst bs)) ++ gbeg (c_in c) (n + nlb bs) body ++ [GenF1.IRemoveScope]) = Li + K + Lb + 2) by (rewrite !app_length, HK; simpl; unfold Li, Lb; lia).
+    rewrite HL in *. pose proof Hat as Hat0. simpl in Hat.
+    set (WH := (0, s) :: sh 1 (clip Li (ann_inits ann (c_in c) n bs (scup s))) ++ sh (S Li) (clip K (ann_puts K (scup s))) ++
+       sh (S Li + K) (clip Lb (ann_begin ann (c_in c) (n + nlb bs) body (scup s))) ++ [(S Li + K + Lb, pushv (scup s))]) in *.
+    assert (Hin_of : forall i st, In (i, st) WH -> i < Li + K + Lb + 2 -> flows A len true (p + i) st = true).
+    { intros i st Hi Hlti. apply flows_in; [eapply (code_at_lt p _ i Hat0); rewrite HL; lia|]. now apply Hcov. }
+    assert (Hbegin_in : In (S Li + K + 0, scup s) WH).
+    { right. apply in_or_app. right. apply in_or_app. right. apply in_or_app. left. apply In_sh. exists 0. split; [reflexivity|]. apply In_clip. split; [exact Hbh|exact HB]. }
+    assert (Hputs_in : 0 < K -> In (S Li + 0, pushn K (scup s)) WH).
+    { intros HK0. right. apply in_or_app. right. apply in_or_app. left. apply In_sh. exists 0. split; [reflexivity|]. apply In_clip. split; [|exact HK0].
+      destruct K; [lia|]. left. reflexivity. }
+    assert (Hat1 : code_at G (p + 1) (gin (c_in c) n bs)).
+    { apply code_at_cons in Hat. apply code_at_app in Hat as [Hat _]. replace (p + 1) with (S p) by lia. exact Hat. }
+    assert (Hat2 : code_at G (p + S Li) (map GenF1.IPutEnv (rev (map fst bs)))).
+    { apply code_at_cons in Hat. apply code_at_app in Hat as [_ Hat]. apply code_at_app in Hat as [Hat _]. fold Li in Hat.
+      replace (p + S Li) with (S p + Li) by lia. exact Hat. }
+    assert (Hat3 : code_at G (p + (S Li + K)) (gbeg (c_in c) (n + nlb bs) body)).
+    { apply code_at_cons in Hat. apply code_at_app in Hat as [_ Hat]. apply code_at_app in Hat as [_ Hat]. apply code_at_app in Hat as [Hat _].
+      fold Li in Hat. rewrite HK in Hat. replace (p + (S Li + K)) with (S p + Li + K) by lia. exact Hat. }
+    assert (Hg1 : good (p + 1) (ann_inits ann (c_in c) n bs (scup s)) Li).
+    { apply (P_inits bs HPb (c_in c) n (p + 1) (scup s) Hfb Hlb Hat1).
+      - intros j s'' Hj Hlt'. rewrite <- Nat.add_assoc. apply Hcov; [|fold Li in Hlt'; lia]. right. apply in_or_app. left. apply In_sh. exists j. split; [reflexivity|]. apply In_clip. auto.
+      - fold Li K. destruct (Nat.eq_dec K 0) as [E0|N0].
+        + rewrite E0. simpl pushn. replace (p + 1 + Li) with (p + (S Li + K + 0)) by lia. apply Hin_of; [exact Hbegin_in|lia].
+        + replace (p + 1 + Li) with (p + (S Li + 0)) by lia. apply Hin_of; [apply Hputs_in; lia|lia]. }
+    assert (Hg2 : good (p + S Li) (ann_puts K (scup s)) K).
+    { assert (EK : K = length (rev (map fst bs))) by (rewrite rev_length, map_length; reflexivity).
+      rewrite EK.
+      apply (P_puts (rev (map fst bs)) (p + S Li) (scup s) Hat2).
+      - rewrite <- EK.
+        intros j s'' Hj Hlt'. rewrite <- Nat.add_assoc. apply Hcov; [|lia]. right. apply in_or_app. right. apply in_or_app. left. apply In_sh. exists j. split; [reflexivity|]. apply In_clip. auto.
+      - rewrite <- EK. replace (p + S Li + K) with (p + (S Li + K + 0)) by lia. apply Hin_of; [exact Hbegin_in|lia]. }
+    assert (Hg3 : good (p + (S Li + K)) (ann_begin ann (c_in c) (n + nlb bs) body (scup s)) Lb).
+    { apply (P_begin body HPbody (c_in c) (n + nlb bs) (p + (S Li + K)) (scup s) Hfbody Hlbody Hne Hat3).
+      - intros j s'' Hj Hlt'. rewrite <- Nat.add_assoc. apply Hcov; [|fold Lb in Hlt'; lia]. right. apply in_or_app. right. apply in_or_app. right. apply in_or_app. left. apply In_sh. exists j. split; [reflexivity|]. apply In_clip. auto.
+      - fold Lb. replace (p + (S Li + K) + Lb) with (p + (S Li + K + Lb)) by lia. apply Hin_of; [|lia]. right. apply in_or_app. right. apply in_or_app. right. apply in_or_app. right. left. reflexivity. }
+    intros i s' [E|Hin] Hlt.
+    - inversion E; subst i s'. rewrite Nat.add_0_r.
+      eapply ok_next; [apply (W_at _ _ _ Hat)|reflexivity|reflexivity|apply arun_up|].
+      destruct bs as [|[x e] r].
+      + replace (S p) with (p + (S Li + K + 0)) by (unfold Li, K; simpl; lia). apply Hin_of; [exact Hbegin_in|lia].
+      + replace (S p) with (p + (1 + 0)) by lia.
+        simpl in Hfb, Hlb. apply andb_prop in Hfb as [Hfe _]. apply andb_prop in Hlb as [Hle _].
+        pose proof (NE_all e (c_in c) n Hfe Hle) as HNe.
+        assert (0 < Li). { unfold Li. change (gin (c_in c) n ((x, e) :: r)) with (GenF1.gen (c_in c) n e ++ gin (c_in c) (n + GenF1.nloops e) r). rewrite app_length. destruct (GenF1.gen (c_in c) n e); [congruence|simpl; lia]. }
+        apply Hin_of; [|lia]. right. apply in_or_app. left. apply In_sh. exists 0. split; [reflexivity|]. apply In_clip. split; [|assumption].
+        change (ann_inits ann (c_in c) n ((x, e) :: r) (scup s)) with
+          (clip (glen (c_in c) n e) (ann (c_in c) n e (scup s)) ++ sh (glen (c_in c) n e) (ann_inits ann (c_in c) (n + GenF1.nloops e) r (pushv (scup s)))).
+        apply in_or_app. left. now apply head_in.
+    - apply in_app_or in Hin as [H1|H1]; [|apply in_app_or in H1 as [H1|H1]; [|apply in_app_or in H1 as [H1|H1]]].
+      + apply In_sh in H1 as (j & -> & Hj). apply In_clip in Hj as [Hj Hjl]. rewrite Nat.add_assoc. now apply Hg1.
+      + apply In_sh in H1 as (j & -> & Hj). apply In_clip in Hj as [Hj Hjl]. rewrite Nat.add_assoc. now apply Hg2.
+      + apply In_sh in H1 as (j & -> & Hj). apply In_clip in Hj as [Hj Hjl]. rewrite Nat.add_assoc. now apply Hg3.
+      + destruct H1 as [E|[]]. inversion E; subst i s'.
+        assert (E2 : (GenF1.IAddScope :: gin (c_in c) n bs ++ map GenF1.IPutEnv (rev (map fst bs)) ++ gbeg (c_in c) (n + nlb bs) body) ++ [GenF1.IRemoveScope] =
+                     GenF1.IAddScope :: gin (c_in c) n bs ++ map GenF1.IPutEnv (rev (map fst bs)) ++ gbeg (c_in c) (n + nlb bs) body ++ [GenF1.IRemoveScope])
+          by (simpl; rewrite <- !app_assoc; reflexivity).
+        match goal with |- ok ?x _ => replace x with (p + length (GenF1.IAddScope :: gin (c_in c) n bs ++ map GenF1.IPutEnv (rev (map fst bs)) ++ gbeg (c_in c) (n + nlb bs) body)) by (simpl; rewrite !app_length, HK; unfold Li, Lb; lia) end.
+        eapply (ok_simple p _ GenF1.IRemoveScope []); [rewrite E2; exact Hat|reflexivity|reflexivity|apply arun_down|].
+        simpl length. rewrite !app_length, HK. fold Li Lb. replace (S (p + S (Li + (K + Lb)))) with (p + (Li + K + Lb + 2)) by lia. exact Hex.
+  Qed.
+  (* ---- all expressions of the loop-free fragment ---- *)
+  Ltac leaf :=
+    let c := fresh in let n := fresh in let p := fresh in let s := fresh in
+    intros c n p s _ _ Hat Hcov Hex i s' Hin Hlt; simpl in Hin; destruct Hin as [E|[]]; inversion E; subst i s';
+    rewrite Nat.add_0_r; eapply ok_next; [apply (W_at _ _ _ Hat)|reflexivity|reflexivity|apply arun_push|];
+    simpl in Hex; replace (S p) with (p + 1) by lia; exact Hex.
+
+  Lemma wrap_head : forall p l L s, good p l L -> In (0, s) l -> 0 < L -> good p ((0, s) :: l) L.
+  Proof. intros p l L s Hg Hin HL i s' [E|H] Hlt; [inversion E; subst; now apply Hg|now apply Hg]. Qed.
+
+  Lemma covers_tl : forall p x l L, covers p (x :: l) L -> covers p l L.
+  Proof. intros p x l L H i s Hin Hlt. apply H; [now right|exact Hlt]. Qed.
+
+  Theorem P_all : forall e, P e.
+  Proof.
+    induction e using expr_ind_nested; try (intros c n p s Hf; simpl in Hf; discriminate); try leaf.
+    - (* EBegin *)
+      intros c n p s Hf Hl Hat Hcov Hex. simpl in Hf, Hl.
+      apply andb_prop in Hf as [Hf Hne]. apply andb_prop in Hf as [Hnn Hf].
+      assert (Hn : es <> []) by (destruct es; [discriminate|discriminate]).
+      change (GenF1.gen c n (EBegin es)) with (GenF1.gen_begin GenF1.gen GenF1.nloops c n es) in *.
+      change (ann c n (EBegin es) s) with ((0, s) :: ann_begin ann c n es s) in *.
+      apply wrap_head; [|now apply begin_head|now apply gen_begin_ne].
+      apply P_begin; auto. eapply covers_tl; eauto.
+    - (* ECond *)
+      intros c n p s Hf Hl Hat Hcov Hex. simpl in Hf, Hl.
+      apply andb_prop in Hf as [Hfa Hfd]. apply andb_prop in Hl as [Hla Hld].
+      change (GenF1.gen c n (ECond arms e)) with (GenF1.gen_cond GenF1.gen GenF1.nloops c n arms (fun n' => GenF1.gen c n' e)) in *.
+      change (ann c n (ECond arms e) s) with ((0, s) :: ann_cond ann c n arms (fun n' => clip (glen c n' e) (ann c n' e s)) s) in *.
+      destruct (cond_head arms e c n s Hfa Hfd Hla Hld) as [Hh Hlen].
+      apply wrap_head; [|exact Hh|exact Hlen].
+      apply P_cond; auto. eapply covers_tl; eauto.
+    - (* EAnd *)
+      intros c n p s Hf Hl Hat Hcov Hex. simpl in Hf, Hl. apply andb_prop in Hf as [Hnn Hf].
+      assert (Hn : es <> []) by (destruct es; [discriminate|discriminate]).
+      change (GenF1.gen c n (EAnd es)) with (GenF1.gen_sc GenF1.gen GenF1.nloops c n false es) in *.
+      change (ann c n (EAnd es) s) with ((0, s) :: ann_sc ann c n es s) in *.
+      apply wrap_head; [|now apply sc_head|now apply gen_sc_ne].
+      apply P_sc; auto. eapply covers_tl; eauto.
+    - (* EOr *)
+      intros c n p s Hf Hl Hat Hcov Hex. simpl in Hf, Hl. apply andb_prop in Hf as [Hnn Hf].
+      assert (Hn : es <> []) by (destruct es; [discriminate|discriminate]).
+      change (GenF1.gen c n (EOr es)) with (GenF1.gen_sc GenF1.gen GenF1.nloops c n true es) in *.
+      change (ann c n (EOr es) s) with ((0, s) :: ann_sc ann c n es s) in *.
+      apply wrap_head; [|now apply sc_head|now apply gen_sc_ne].
+      apply P_sc; auto. eapply covers_tl; eauto.
+    - (* EDef *)
+      intros c n p s Hf Hl Hat Hcov Hex. simpl in Hf, Hl.
+      change (GenF1.gen c n (EDef x e)) with (GenF1.gen c n e ++ [GenF1.IDup; GenF1.IPutEnv x]) in *.
+      change (ann c n (EDef x e) s) with ((0, s) :: clip (glen c n e) (ann c n e s) ++ [(glen c n e, pushv s); (S (glen c n e), pushv (pushv s))]) in *.
+      assert (HL : length (GenF1.gen c n e ++ [GenF1.IDup; GenF1.IPutEnv x]) = glen c n e + 2) by (rewrite app_length; simpl; lia).
+      rewrite HL in *. eapply P_defset; eauto; reflexivity.
+    - (* ESet *)
+      intros c n p s Hf Hl Hat Hcov Hex. simpl in Hf, Hl.
+      change (GenF1.gen c n (ESet x e)) with (GenF1.gen c n e ++ [GenF1.IDup; GenF1.IUpdate x]) in *.
+      change (ann c n (ESet x e) s) with ((0, s) :: clip (glen c n e) (ann c n e s) ++ [(glen c n e, pushv s); (S (glen c n e), pushv (pushv s))]) in *.
+      assert (HL : length (GenF1.gen c n e ++ [GenF1.IDup; GenF1.IUpdate x]) = glen c n e + 2) by (rewrite app_length; simpl; lia).
+      rewrite HL in *. eapply P_defset; eauto; reflexivity.
+    - (* ELet *)
+      destruct seq; [now apply P_let_seq|now apply P_let_par].
+    - (* EScope *)
+      now apply P_scope.
+  Qed.   (* EFor / EBreak / ECont are outside the loop-free fragment: lf = false, closed by discriminate *)
 (* END-SECTION *)
 End Code.
+
+(* ---------- from the pair list to the annotation check_fn reads ---------- *)
+
+Lemma build_nth : forall len l p, p < len ->
+  nth p (build len l) [] = map snd (filter (fun x => Nat.eqb (fst x) p) l).
+Proof.
+  intros len l p H. unfold build.
+  rewrite (nth_indep _ [] ((fun q => map snd (filter (fun x => Nat.eqb (fst x) q) l)) 0))
+    by (rewrite map_length, seq_length; exact H).
+  rewrite (map_nth (fun q => map snd (filter (fun x => Nat.eqb (fst x) q) l))). now rewrite seq_nth by exact H.
+Qed.
+
+Lemma build_In : forall len l p s, p < len -> (In s (nth p (build len l) []) <-> In (p, s) l).
+Proof.
+  intros len l p s H. rewrite build_nth by exact H. rewrite in_map_iff. split.
+  - intros ([q s'] & E & Hf). simpl in E. subst s'. apply filter_In in Hf as [Hin Hq]. simpl in Hq.
+    apply Nat.eqb_eq in Hq. now subst.
+  - intros Hin. exists (p, s). split; [reflexivity|]. apply filter_In. split; [exact Hin|]. simpl. apply Nat.eqb_refl.
+Qed.
+
+Lemma check_from_all : forall code fi im A rest p0,
+  (forall p sts st, nth_error rest p = Some sts -> In st sts -> check_state code fi im A (p0 + p) st = true) ->
+  check_from code fi im A p0 rest = true.
+Proof.
+  intros code fi im A rest. induction rest as [|x r IH]; intros p0 H; [reflexivity|].
+  simpl. apply andb_true_intro. split.
+  - apply forallb_forall. intros st Hin. specialize (H 0 x st eq_refl Hin). now rewrite Nat.add_0_r in H.
+  - apply IH. intros p sts st Hn Hin. specialize (H (S p) sts st Hn Hin). now rewrite Nat.add_succ_r in H.
+Qed.
+
+(* gen_verifies for the loop-free fragment F0: literals, variables, calls (one instruction), begin,
+   cond, and/or, def/set, let, letseq, newScope, in every nesting *)
+Theorem gen_verifies_F0_lemma : forall fi e, GenF1.f1 e = true -> lf e = true ->
+  check_fn (to_bytecode (GenF1.gen GenF1.top 0 e)) fi true 0 (annot_of e) = true.
+Proof.
+  intros fi e Hf Hl.
+  pose proof (NE_all e GenF1.top 0 Hf Hl) as HN.
+  set (G := GenF1.gen GenF1.top 0 e) in *.
+  assert (HW : length (to_bytecode G) = length G) by (unfold to_bytecode; apply map_length).
+  assert (HG : 0 < length G) by (destruct G; [congruence|simpl; lia]).
+  assert (Hat : code_at G 0 G) by (exists [], []; rewrite app_nil_r; auto).
+  assert (Hgood : good G fi (annot_of e) 0 (ann GenF1.top 0 e ([], 0)) (length G)).
+  { apply (P_all G fi (annot_of e) e GenF1.top 0 0 ([], 0) Hf Hl Hat).
+    - intros i s Hin Hlt. simpl. unfold annot_of. fold G. apply build_In; assumption.
+    - simpl. unfold flows. fold G. rewrite map_length. now rewrite Nat.ltb_irrefl. }
+  unfold check_fn. destruct (to_bytecode G) eqn:EW; [simpl in HW; lia|]. rewrite <- EW.
+  apply andb_true_intro. split.
+  - apply In_mem. unfold annot_of. fold G. apply build_In; [exact HG|]. apply ann_head.
+  - apply check_from_all. intros p sts st Hn Hin. simpl.
+    assert (Hp : p < length G).
+    { assert (Hs : nth_error (annot_of e) p <> None) by congruence. apply nth_error_Some in Hs.
+      unfold annot_of, build in Hs. fold G in Hs. now rewrite map_length, seq_length in Hs. }
+    assert (Hin2 : In (p, st) (ann GenF1.top 0 e ([], 0))).
+    { apply (build_In (length G) _ p st Hp). unfold annot_of in Hn. fold G in Hn. now rewrite (nth_error_nth _ _ [] Hn). }
+    specialize (Hgood p st Hin2 Hp). exact Hgood.
+Qed.
+
+(* generator + machine, unbounded: the code that the model generator emits for ANY loop-free program,
+   run by the abstract machine from the interpreter at rest along any path to its end, leaves the
+   interpreter at rest *)
+Theorem f0_leaves_nothing_behind_lemma : forall fi e s s',
+  GenF1.f1 e = true -> lf e = true -> at_rest s = true -> Verifier.pc s = 0 ->
+  arun (to_bytecode (GenF1.gen GenF1.top 0 e)) fi s s' ->
+  length (to_bytecode (GenF1.gen GenF1.top 0 e)) <= Verifier.pc s' ->
+  at_rest (run_finish s') = true.
+Proof.
+  intros fi e s s' Hf Hl Hr Hp Hrun Hend.
+  eapply toplevel_rest_lemma; eauto. now apply gen_verifies_F0_lemma.
+Qed.
